@@ -23,7 +23,7 @@ def shards(tier):
 def floors(tier):
     return {"variants": 20000, "bases": 1500, "nop_in_index_position": 5000, "nop_after_branch_or_ring": 5000,
             "exhaustive_single_insertions": 3000, "padding_roundtrips": 1000, "bases_that_raise": 50, "M6.calls": 20000,
-            "nop_at_fragment_edge": 2000, "bases_with_empty_fragment": 100, "long_nop_runs": 50}
+            "nop_at_fragment_edge": 2000, "bases_with_empty_fragment": 100, "long_nop_runs": 50, "soak_distinct_symbols": 100000, "bases.after_soak": 100}
 
 
 def outcome(sf, x, **k):
@@ -46,116 +46,129 @@ def run(ctx):
         if r[0] == "ok":
             data.append(r[1])
     pool = scopes.SETS["core"][:-1] + ['[=O]', '[Branch2]', '[Ring2]', '[#Branch3]', '[P]', '[S]', '[epsilon]']
-    nbase = 500 if quick else 25000
-    for i in range(nbase):
-        if i % 30 == 0:
-            t = rng.choice(["default", "hypervalent", "octet_rule", tablegen.random_table(rng)])
-            sf.set_semantic_constraints(t)
-            table = sf.get_semantic_constraints()
-            g = LiveGen(table, rng, p_branch=0.22, p_ring=0.2)
-        kind = rng.random()
-        if kind < 0.6:
-            x = g.string(nfrag=rng.choice([1, 1, 2, 3]), length=rng.choice([5, 10, 30, 80]))
-        elif kind < 0.8 and data:
-            x = "".join(mutate_symbols(tokens_with_dots(rng.choice(data)), rng, pool))
-        else:
-            x = g.string(1, rng.choice([4, 8, 12]))
-        toks = [t for t in tokens_with_dots(x) if t != "[nop]"]
-        if rng.random() < 0.2 and toks:
-            toks.insert(rng.randrange(len(toks) + 1), rng.choice(['[Xx]', '[Branch9]', '[CH9]']))
-        if rng.random() < 0.12:
-            # empty fragments: a [nop]-only fragment between two dots is the same as nothing between them
-            toks.insert(rng.randrange(len(toks) + 1), ".")
-            ctx.count("bases_with_empty_fragment")
-        base = "".join(toks)
-        r0 = outcome(sf, base)
-        ra0 = outcome(sf, base, attribute=True)
-        rc0 = outcome(sf, base, compatible=True)
-        ctx.count("bases")
-        if r0[0] != "ok":
-            ctx.count("bases_that_raise")
-        if r0[0] == "esc":
-            ctx.finding("escape:%s@%s" % (r0[1], r0[2]), {"selfies": base, "table": table}, "base string")
-            continue
-        has_br = any(classify(t) and classify(t)[0] in ("branch", "ring") for t in toks if t != ".")
+    def workload(nbase, tag):
+        nonlocal table, g
+        for i in range(nbase):
+            if i % 30 == 0:
+                t = rng.choice(["default", "hypervalent", "octet_rule", tablegen.random_table(rng)])
+                sf.set_semantic_constraints(t)
+                table = sf.get_semantic_constraints()
+                g = LiveGen(table, rng, p_branch=0.22, p_ring=0.2)
+            kind = rng.random()
+            if kind < 0.6:
+                x = g.string(nfrag=rng.choice([1, 1, 2, 3]), length=rng.choice([5, 10, 30, 80]))
+            elif kind < 0.8 and data:
+                x = "".join(mutate_symbols(tokens_with_dots(rng.choice(data)), rng, pool))
+            else:
+                x = g.string(1, rng.choice([4, 8, 12]))
+            toks = [t for t in tokens_with_dots(x) if t != "[nop]"]
+            if rng.random() < 0.2 and toks:
+                toks.insert(rng.randrange(len(toks) + 1), rng.choice(['[Xx]', '[Branch9]', '[CH9]']))
+            if rng.random() < 0.12:
+                # empty fragments: a [nop]-only fragment between two dots is the same as nothing between them
+                toks.insert(rng.randrange(len(toks) + 1), ".")
+                ctx.count("bases_with_empty_fragment")
+            base = "".join(toks)
+            r0 = outcome(sf, base)
+            ra0 = outcome(sf, base, attribute=True)
+            rc0 = outcome(sf, base, compatible=True)
+            ctx.count("bases" + tag)
+            if r0[0] != "ok":
+                ctx.count("bases_that_raise")
+            if r0[0] == "esc":
+                ctx.finding("escape:%s@%s" % (r0[1], r0[2]), {"selfies": base, "table": table}, "base string")
+                continue
+            has_br = any(classify(t) and classify(t)[0] in ("branch", "ring") for t in toks if t != ".")
 
-        def variant(positions, tag):
-            """positions: list of indices in toks before which one [nop] goes (len(toks) = at the end)."""
-            out = []
-            ps = sorted(positions)
-            k = 0
-            for idx, t in enumerate(toks):
-                while k < len(ps) and ps[k] == idx:
-                    out.append("[nop]")
-                    k += 1
-                out.append(t)
-            out += ["[nop]"] * (len(ps) - k)
-            y = "".join(out)
-            del MON.token_log[:]
-            r = outcome(sf, y)
-            ctx.count("variants")
-            ctx.case((base, y), has_br, sample={"base": base[:150], "variant": y[:200], "outcome": r[0]} if has_br and len(toks) > 6 else None)
-            payload = {"selfies": base, "variant": y if len(y) < 3000 else None, "table": table, "placement": tag,
-                       "nop_positions": ps if len(ps) < 50 else [ps[0], len(ps)]}
-            if r != r0:
-                ctx.finding("nop-changes-decoder-outcome", payload, "%r -> %r" % (r0, r)[:600])
-            ra = outcome(sf, y, attribute=True)
-            if ra != ra0 or (ra[0] == "ok" and ra[1][0] != r0[1]):
-                ctx.finding("nop-changes-decoder-outcome-with-attribution", payload, "%r -> %r" % (ra0, ra)[:600])
-            rc = outcome(sf, y, compatible=True)
-            if rc != rc0:
-                ctx.finding("nop-changes-decoder-outcome-with-compatible", payload, "%r -> %r" % (rc0, rc)[:600])
+            def variant(positions, tag):
+                """positions: list of indices in toks before which one [nop] goes (len(toks) = at the end)."""
+                out = []
+                ps = sorted(positions)
+                k = 0
+                for idx, t in enumerate(toks):
+                    while k < len(ps) and ps[k] == idx:
+                        out.append("[nop]")
+                        k += 1
+                    out.append(t)
+                out += ["[nop]"] * (len(ps) - k)
+                y = "".join(out)
+                del MON.token_log[:]
+                r = outcome(sf, y)
+                ctx.count("variants")
+                ctx.case((base, y), has_br, sample={"base": base[:150], "variant": y[:200], "outcome": r[0]} if has_br and len(toks) > 6 else None)
+                payload = {"selfies": base, "variant": y if len(y) < 3000 else None, "table": table, "placement": tag,
+                           "nop_positions": ps if len(ps) < 50 else [ps[0], len(ps)]}
+                if r != r0:
+                    ctx.finding("nop-changes-decoder-outcome", payload, "%r -> %r" % (r0, r)[:600])
+                ra = outcome(sf, y, attribute=True)
+                if ra != ra0 or (ra[0] == "ok" and ra[1][0] != r0[1]):
+                    ctx.finding("nop-changes-decoder-outcome-with-attribution", payload, "%r -> %r" % (ra0, ra)[:600])
+                rc = outcome(sf, y, compatible=True)
+                if rc != rc0:
+                    ctx.finding("nop-changes-decoder-outcome-with-compatible", payload, "%r -> %r" % (rc0, rc)[:600])
 
-        # forced placements
-        idxpos, after = [], []
-        for p, t in enumerate(toks):
-            c = classify(t) if t != "." else None
-            if c and c[0] in ("branch", "ring"):
-                after.append(p + 1)
-                for d in range(c[2]):
-                    idxpos.append(p + 1 + d)
-        idxpos = [p for p in idxpos if p <= len(toks)]
-        if idxpos:
-            variant(idxpos, "every-index-position")
-            ctx.count("nop_in_index_position", len(idxpos))
-            variant(idxpos + idxpos, "two-per-index-position")
-        if after:
-            variant(after, "after-every-branch-ring")
-            ctx.count("nop_after_branch_or_ring", len(after))
-        edges = [0, len(toks)] + [p for p, t in enumerate(toks) if t == "."] + [p + 1 for p, t in enumerate(toks) if t == "."]
-        variant(edges, "fragment-edges")
-        ctx.count("nop_at_fragment_edge", len(edges))
-        for k in range(3):
-            ps = []
-            for p in range(len(toks) + 1):
-                while rng.random() < 0.3:
-                    ps.append(p)
-            variant(ps, "random")
-        if len(toks) <= 12:
-            for p in range(len(toks) + 1):
-                variant([p], "single@%d" % p)
-                ctx.count("exhaustive_single_insertions")
-        if i % 10 == 3:
-            # very long runs of padding (wide fixed-width fields, left padding)
-            p = rng.randrange(len(toks) + 1)
-            variant([p] * rng.choice([300, 1023, 1024, 1025, 2048, 5000]), "long-run@%d" % p)
-            variant([0] * rng.choice([1000, 1024, 4096]), "left-padding")
-            ctx.count("long_nop_runs", 2)
-        # padding through the encoding utilities (their domain: single dots strictly between symbols)
-        if ".." in base or base.startswith(".") or base.endswith("."):
-            continue
-        syms = sorted(set(t for t in toks) | {"[nop]", "."})
-        stoi = {s: i for i, s in enumerate(syms)}
-        itos = {i: s for s, i in stoi.items()}
-        pad = len(toks) + rng.choice([0, 1, 5, 20])
-        e = call_guard(lambda: sf.selfies_to_encoding(base, stoi, pad_to_len=pad, enc_type="label"))
-        if e[0] == "ok":
-            back = call_guard(lambda: sf.encoding_to_selfies(e[1], itos, "label"))
-            ctx.count("padding_roundtrips")
-            if back[0] != "ok" or outcome(sf, back[1]) != r0:
-                ctx.finding("padded-string-decodes-differently", {"selfies": base, "padded": repr(back)[:300], "table": table}, "padding round trip")
-        else:
-            ctx.finding("padding-raises", {"selfies": base, "table": table}, repr(e)[:300])
+            # forced placements
+            idxpos, after = [], []
+            for p, t in enumerate(toks):
+                c = classify(t) if t != "." else None
+                if c and c[0] in ("branch", "ring"):
+                    after.append(p + 1)
+                    for d in range(c[2]):
+                        idxpos.append(p + 1 + d)
+            idxpos = [p for p in idxpos if p <= len(toks)]
+            if idxpos:
+                variant(idxpos, "every-index-position")
+                ctx.count("nop_in_index_position", len(idxpos))
+                variant(idxpos + idxpos, "two-per-index-position")
+            if after:
+                variant(after, "after-every-branch-ring")
+                ctx.count("nop_after_branch_or_ring", len(after))
+            edges = [0, len(toks)] + [p for p, t in enumerate(toks) if t == "."] + [p + 1 for p, t in enumerate(toks) if t == "."]
+            variant(edges, "fragment-edges")
+            ctx.count("nop_at_fragment_edge", len(edges))
+            for k in range(3):
+                ps = []
+                for p in range(len(toks) + 1):
+                    while rng.random() < 0.3:
+                        ps.append(p)
+                variant(ps, "random")
+            if len(toks) <= 12:
+                for p in range(len(toks) + 1):
+                    variant([p], "single@%d" % p)
+                    ctx.count("exhaustive_single_insertions")
+            if i % 10 == 3:
+                # very long runs of padding (wide fixed-width fields, left padding)
+                p = rng.randrange(len(toks) + 1)
+                variant([p] * rng.choice([300, 1023, 1024, 1025, 2048, 5000]), "long-run@%d" % p)
+                variant([0] * rng.choice([1000, 1024, 4096]), "left-padding")
+                ctx.count("long_nop_runs", 2)
+            # padding through the encoding utilities (their domain: single dots strictly between symbols)
+            if ".." in base or base.startswith(".") or base.endswith("."):
+                continue
+            syms = sorted(set(t for t in toks) | {"[nop]", "."})
+            stoi = {s: i for i, s in enumerate(syms)}
+            itos = {i: s for s, i in stoi.items()}
+            pad = len(toks) + rng.choice([0, 1, 5, 20])
+            e = call_guard(lambda: sf.selfies_to_encoding(base, stoi, pad_to_len=pad, enc_type="label"))
+            if e[0] == "ok":
+                back = call_guard(lambda: sf.encoding_to_selfies(e[1], itos, "label"))
+                ctx.count("padding_roundtrips")
+                if back[0] != "ok" or outcome(sf, back[1]) != r0:
+                    ctx.finding("padded-string-decodes-differently", {"selfies": base, "padded": repr(back)[:300], "table": table}, "padding round trip")
+            else:
+                ctx.finding("padding-raises", {"selfies": base, "table": table}, repr(e)[:300])
+
+    table = None
+    g = None
+    workload(500 if quick else 25000, "")
+    if ctx.shard % 4 == 0:
+        # soak: a long-lived process has translated a very large number of distinct symbols (tables with a size
+        # limit, interning, eviction ...) - the padding symbol must still be invisible afterwards
+        sf.set_semantic_constraints("default")
+        for k in range(140000 if quick else 400000):
+            call_guard(lambda: sf.decoder("[%dC][O]" % k), expected=(sf.DecoderError,))
+        ctx.count("soak_distinct_symbols", 140000 if quick else 400000)
+        workload(60 if quick else 2000, ".after_soak")
     n_nop_index = 0
     for k, v in MON.counts.items():
         ctx.count(k, v)
